@@ -44,7 +44,9 @@ VALS_SMALL = (0, 2, 3, 5)       # 0: a zero factor must not hide an error
 VECTORS = ((2, 3, 5, 7, 11, 13), (7, 5, 3, 2, 11, 4), (0.5, 4, 3, 2, 8, 5),
            (0, 3, 0, 2, 5, 0),
            # tiny but non-zero divisors are not zero
-           (2e-17, 3, 4e-17, 5, 8e-17, 2))
+           (2e-17, 3, 4e-17, 5, 8e-17, 2),
+           # fractional exponents: a negated base has no real power
+           (4, 0.5, 9, 1.5, 2, 0.5))
 
 AT = 'Sheet1!Z1'
 
